@@ -209,6 +209,7 @@ func exec(in In) vh.Result {
 	var answers, answersNS [][]string
 	var names []string
 	totMem, totFile := 0, 0
+	nTraces := 0
 	nonEmpty := 0
 	for li, l := range in.Layouts {
 		idx, path, dir, err := sw.Open(l.Layout)
@@ -285,6 +286,7 @@ func exec(in In) vh.Result {
 			totMem += mm
 			totFile += fm
 			cases = append(cases, tr)
+			nTraces++
 		}
 		// contents of every layout = replay of the flat operation list
 		dops, _ := sw.OpsTerms(in.Ops)
@@ -326,7 +328,7 @@ func exec(in In) vh.Result {
 	if known != nil {
 		class = "score-multiterm-stale-dictionary"
 	}
-	return vh.Result{Term: cf.App("CMulti", cf.List(cases)), Nontrivial: totMem+totFile > 0 && nonEmpty >= 3, Direct: known, Class: class,
+	return vh.Result{Term: cf.App("CMulti", cf.List(cases)), Nontrivial: totMem+totFile > 0 && nonEmpty >= 3, Direct: known, Class: class, Traces: nTraces,
 		Hist: []string{"history", fmt.Sprintf("layouts=%d", len(in.Layouts)), fmt.Sprintf("mem_merges=%d", min(totMem, 6)), fmt.Sprintf("file_merges=%d", min(totFile, 9)), fmt.Sprintf("nonempty_requests=%d", nonEmpty)}}
 }
 
